@@ -8,6 +8,7 @@ git -C /repo apply "$P" || { echo "PATCH DOES NOT APPLY"; exit 3; }
 cd /verif/streamsim && cargo build --release --features polars --target-dir target-polars 2>/tmp/try_polars_build.log || { echo BUILD FAILED; tail -20 /tmp/try_polars_build.log; git -C /repo checkout -- .; exit 2; }
 ./target-polars/release/streamsim run --prop "$PROP" --tier thorough --scale 0.25 --label "polars back end" --known /verif/known_findings.jsonl --replay-dir /verif/replays > /tmp/try_mutant_polars.log 2>&1; RC=$?
 git -C /repo checkout -- .
+( cd /verif && ./check build >/dev/null 2>&1 )
 grep -E "^VIOLATION|^violation|^KNOWN|HARNESS" /tmp/try_mutant_polars.log | head -8
 echo "check exit: $RC"
 exit $RC
